@@ -164,6 +164,33 @@ def boundary_scenario(rng, sid, cap):
     return '\n'.join([head] + ['T ' + ';'.join(p) for p in progs] + ['GO'])
 
 
+def stall_scenario(rng, sid, cap):
+    """an explicit schedule prefix stalls worker A after `a` of its quanta - i.e. between any two atomic steps of
+    GetProtectedEpochs / CreateEpochGuard (ID claim, expired() test, heartbeat assignment, load of the global epoch,
+    store of the pinned epoch, the list lookup) - while the coordinator forwards over zero, one or two 256-epoch
+    boundaries, a second worker B pins an epoch in between, and the coordinator forwards again; then A resumes.
+    A stall between the load and the store is known finding F6; the others must be harmless."""
+    per_fwd = 3 + 2 * cap
+    a = rng.choice([3, 4, 5, 6, 7, 7, 7, 8, 8])
+    n1 = rng.choice([1, 2, 200, 257, 300, 300])
+    n2 = rng.choice([1, 2, 257, 300, 300, 520])
+    pre = rng.choice([0, 0, 10, 250, 255])
+    progA = [f'probe {rng.randrange(cap)}', 'gpe 0', 'relist 0', 'gepoch 0', 'relist 0', 'unguard 0']
+    progB = [f'probe {rng.randrange(cap)}', rng.choice(['guard 2', 'gpe 2']), 'hold 3', 'relist 2' if rng.random() < 0.5 else 'cur', 'unguard 2']
+    coord = ([f'fwd {pre}'] if pre else []) + [f'fwd {n1}', f'fwd {n2}', 'fwd 2', 'min', 'cur']
+    sched = []
+    if pre:
+        sched += [2] * (pre * per_fwd + 2)
+    sched += [0] * a
+    sched += [2] * (n1 * per_fwd + 1)
+    sched += [1] * rng.choice([0, 9, 9, 12])
+    sched += [2] * (n2 * per_fwd + 1)
+    head = (f'SCEN {sid} comp=thread nvars=4 policy={rng.choice([0, 1, 2])} seed={rng.randrange(1, 1 << 30)} '
+            f'max_steps=60000')
+    return '\n'.join([head, 'T ' + ';'.join(progA), 'T ' + ';'.join(progB), 'T ' + ';'.join(coord),
+                      'S ' + ' '.join(map(str, sched)), 'GO'])
+
+
 def deep_scenario(rng, sid, cap, sequential):
     if sequential and rng.random() < 0.6:
         return boundary_scenario(rng, sid, cap) if rng.random() < 0.5 else staircase_scenario(rng, sid, cap)
@@ -202,7 +229,10 @@ def make_scenarios(seed, count, prefix, cap, kinds=('epoch', 'id'), long_share=0
         kind = rng.choice(kinds)
         seq = kind == 'epoch' and rng.random() < seq_share
         if kind == 'epoch' and cap >= 2 and rng.random() < deep_share:
-            out.append(deep_scenario(rng, f'{prefix}{i}', cap, seq))
+            if not seq and rng.random() < 0.5:
+                out.append(stall_scenario(rng, f'{prefix}{i}', cap))
+            else:
+                out.append(deep_scenario(rng, f'{prefix}{i}', cap, seq))
             continue
         out.append(g.scenario(f'{prefix}{i}', kind=kind, long_run=(kind == 'epoch' and rng.random() < long_share),
                               sequential=seq))
